@@ -2,7 +2,7 @@
    line written by the Go harness) to the canonical text of the model's
    observable.  Used identically by the extracted OCaml driver and by the
    in-Coq vm_compute evaluation. *)
-From Lungo.Model Require Import Compare RunAccess ApiOps RunOplog RunSpec RunSort File RunMatch Fs FsRun Stream Gridfs Project Arith RunApply RunReload.
+From Lungo.Model Require Import Compare RunAccess ApiOps RunOplog RunSpec RunSort File RunMatch Fs FsRun Stream Gridfs Project Arith RunApply RunReload EngineRun SerialRun.
 From Lungo.Spec Require Import RunRef.
 Open Scope string_scope.
 
@@ -43,6 +43,8 @@ Definition runners : list (sexp -> option string) :=
   ; run_project
   ; run_num
   ; run_apply
+  ; run_engine
+  ; run_serial
   ].
 
 Fixpoint first_some (rs : list (sexp -> option string)) (x : sexp) : string :=
